@@ -75,7 +75,7 @@ PROPS = {
                 "multi-delete with a version, put of another key), followed by a probe that GETs and HEADs every key with every id ever "
                 "issued; plus seeded random histories of 30/40 ops over three keys starting never-versioned. Version ids are compared "
                 "through a bijection built on first sight (model issue rank <-> implementation string). distinct_nontrivial = distinct "
-                "sequences executed. Every third suspension is sent as a versioning document that does not mention the status.",
+                "sequences executed. Every third suspension is sent as a versioning document that does not mention the status. A twelfth of the operations are copies (onto itself with new metadata, with and without the REPLACE directive, and onto another key).",
         "explanation": "Theorems over the version-stack model: fresh ids, archived versions retrievable until deleted, plain delete adds "
                        "a marker, delete-version removes just that version and promotes the newest remaining one, writes while suspended "
                        "never destroy versions created while enabled, no reachable state has a nil current version. Tie: each response "
@@ -93,7 +93,7 @@ PROPS = {
                 "'/'), seeded subsets of size 3..6 and five 'rich' sets (a-x a/x a.x, UTF-8, nested directories); for each set every "
                 "prefix over {a,b,/} of length <= 3 not starting with '/', delimiter absent and '/' (and 'b' on memory/bolt), V1 or "
                 "V2; the memory backend runs versioned with a delete-marked ghost key; every set is deleted again and the bucket "
-                "re-listed. fs backends: conflict-free sets only. distinct_nontrivial = distinct (backend, key set, prefix, delimiter). A rich set of names a directory walk may treat specially (segments beginning with a dot, a blank, a tilde; ending with a dot); every rich set runs on every backend also in the quick tier. On the real-directory fs backends every tenth set ends with uploads the file system refuses half way; on every backend ghost keys are stored and deleted before the listings. Half of the undelimited listings send an explicit empty delimiter= parameter. On the fs backends every second key set tries uploads one and two levels below a stored object (refused; outside the model); every fs listing is also compared, contents and common prefixes in order, with fs_list of the extracted Model/FsList.v on the directory tree of the live keys. On the memory backend every third key set deletes two delete-marked ghost keys once more while versioning is suspended. On the memory backend every fourth key set removes the current version of a key with three versions by its id (the newest remaining one is listed) and of a key whose newest remaining version is a delete marker (hidden again). c03Unclean: on the key-value backends u/v u//v u///v u/./w u/w u/../x x with distinct sizes, listed V1/V2 under six prefix/delimiter combinations, path-style and through host-bucket-base / host-bucket servers, before and after two deletes.",
+                "re-listed. fs backends: conflict-free sets only. distinct_nontrivial = distinct (backend, key set, prefix, delimiter). A rich set of names a directory walk may treat specially (segments beginning with a dot, a blank, a tilde; ending with a dot); every rich set runs on every backend also in the quick tier. On the real-directory fs backends every tenth set ends with uploads the file system refuses half way; on every backend ghost keys are stored and deleted before the listings. Half of the undelimited listings send an explicit empty delimiter= parameter. On the fs backends every second key set tries uploads one and two levels below a stored object (refused; outside the model); every fs listing is also compared, contents and common prefixes in order, with fs_list of the extracted Model/FsList.v on the directory tree of the live keys. On the memory backend every third key set deletes two delete-marked ghost keys once more while versioning is suspended. On the memory backend every fourth key set removes the current version of a key with three versions by its id (the newest remaining one is listed) and of a key whose newest remaining version is a delete marker (hidden again). c03Unclean: on the key-value backends u/v u//v u///v u/./w u/w u/../x x with distinct sizes, listed V1/V2 under six prefix/delimiter combinations, path-style and through host-bucket-base / host-bucket servers, before and after two deletes. A rich key set of base64-sensitive keys; on the memory backend V2 walks (1 and 2 entries a page) over every rich set, every other one handing the server's token back verbatim.",
         "explanation": "Theorems: Prefix.Match equals the declarative classification (string prefix, first delimiter after it) for "
                        "every key/prefix/delimiter in the property's domain, and the unpaginated listing is exactly filter+group of the "
                        "sorted live keys. Tie: ListObjects responses (keys in order, sizes, ETags, common prefixes) of the Go handlers "
@@ -109,7 +109,7 @@ PROPS = {
                 "full walks following the server's continuation (V1 NextMarker or last key, V2 continuation token) checked by the "
                 "walk oracle (page bound, strictly ascending, each common prefix once, concatenation = unpaginated, last page not "
                 "truncated, termination) and page-by-page against the model; single pages from arbitrary markers incl. start-after; "
-                "bolt/fs: fallback with WithUnimplementedPageError on/off. distinct_nontrivial = distinct walks. Key sets in which a key ends with the delimiter (next to keys below it) are walked too; keys beginning with the delimiter are the known finding D32. c04EncodedKeys: keys containing '+', '%41', '%2F', '%25' walked for every page size with and without encoding-type=url. c04SuspendedDeletes: keys hidden inside groups by deletes made while versioning is suspended. Every third walk opens with its marker parameter present and empty (marker= / start-after= / continuation-token=).",
+                "bolt/fs: fallback with WithUnimplementedPageError on/off. distinct_nontrivial = distinct walks. Key sets in which a key ends with the delimiter (next to keys below it) are walked too; keys beginning with the delimiter are the known finding D32. c04EncodedKeys: keys containing '+', '%41', '%2F', '%25' walked for every page size with and without encoding-type=url. c04SuspendedDeletes: keys hidden inside groups by deletes made while versioning is suspended. Every third walk opens with its marker parameter present and empty (marker= / start-after= / continuation-token=). Every other V2 walk hands the server's continuation token back exactly as it came.",
         "explanation": "Theorems about the paging loop of the model (bound, progress, completeness of the walk by induction on the sorted "
                        "key list). Tie: every page of every walk from the Go handlers vs the extracted model, plus a model-independent "
                        "walk oracle evaluated on the implementation's pages.",
@@ -142,7 +142,7 @@ PROPS = {
                 "following NextPartNumberMarker and single pages from markers {0,1,2,4,13,14,41,42,10^6}; ListMultipartUploads walks "
                 "for every max-uploads 1..n+1 over six prefix/delimiter combinations following (NextKeyMarker, NextUploadIdMarker); "
                 "each walk is checked by a model-independent oracle (bound, every entry once, concatenation = unpaginated, each common "
-                "prefix once) and page by page against the model. distinct_nontrivial = distinct walks. A fixed history lists uploads whose groups are not neighbours in key order (/a/x, /b/x, a/y) unpaginated against the model. Every eighth history uses keys with white space at either end. Every second history ends by aborting what is left and listing the uploads of the bucket. A sixth of the part uploads spell the part number as a client may (010, 008, +3, 00013 decimal; 0x10, 0b11, 0o17, 1_0, 1e1, ' 5' name no part). A third of the uploads to a held part number are re-uploads the server refuses (digest of other bytes / more bytes than declared), followed by a part listing.",
+                "prefix once) and page by page against the model. distinct_nontrivial = distinct walks. A fixed history lists uploads whose groups are not neighbours in key order (/a/x, /b/x, a/y) unpaginated against the model. Every eighth history uses keys with white space at either end. Every second history ends by aborting what is left and listing the uploads of the bucket. A sixth of the part uploads spell the part number as a client may (010, 008, +3, 00013 decimal; 0x10, 0b11, 0o17, 1_0, 1e1, ' 5' name no part). A third of the uploads to a held part number are re-uploads the server refuses (digest of other bytes / more bytes than declared), followed by a part listing. An eighth of the part operations use the upload id through the key of another upload.",
         "explanation": "Theorems over the uploader model's listings (exactness w.r.t. the pending uploads / held parts, paging). Tie: "
                        "every page from the Go handlers vs the extracted model plus the walk oracle on the implementation's pages.",
         "assumptions": [],
@@ -158,7 +158,7 @@ PROPS = {
                 "ReadAll(exact / short / long declared size) and copy loops with buffers 1,2,7,512,32768; truncated and malformed "
                 "framings; then PUT with the streaming framing on all six backends with the same fragmentations, GET after each, "
                 "declared decoded length off by one and negative. distinct_nontrivial = distinct (payload length, chunking, schedule, "
-                "consumer) with a non-empty payload. aws-chunked part uploads and whole-object uploads are also sent with a Content-MD5: of their payload (accepted) and of other bytes (refused). Every other stream spells its chunk sizes with upper-case hex digits.",
+                "consumer) with a non-empty payload. aws-chunked part uploads and whole-object uploads are also sent with a Content-MD5: of their payload (accepted) and of other bytes (refused). Every other stream spells its chunk sizes with upper-case hex digits. Streaming uploads with 1500..2100 bytes of user metadata: what is stored is the payload or nothing.",
         "explanation": "Theorem: for every payload, every chunking, every transport fragmentation and every consumer buffer schedule the "
                        "modelled decoder returns exactly the payload. Tie: the real chunkedReader (driven directly and through PUT) vs "
                        "the extracted state machine on the same streams and schedules; spec oracle: decoded bytes = payload, wrong "
@@ -194,7 +194,7 @@ PROPS = {
                 "resolves to), walks for max-keys 1..n+1 over four prefix/delimiter combinations following (NextKeyMarker, "
                 "NextVersionIdMarker) checked by a model-independent oracle (bound, every entry once, concatenation = unpaginated) and "
                 "page by page against the model, and single pages from marker pairs naming existing versions. distinct_nontrivial = "
-                "distinct walks. Every fifth history opens with deletes made while versioning is suspended over enabled-era versions; once versioning has ever been enabled every entry of the full listing is read back by the id it is listed with. Every fourth history has keys containing '+', a blank and '%20'. The marker pairs naming existing versions are also sent under five prefix / delimiter combinations (the marker's key inside, outside or grouped by the prefix). Every third suspension is sent as a versioning document that does not mention the status.",
+                "distinct walks. Every fifth history opens with deletes made while versioning is suspended over enabled-era versions; once versioning has ever been enabled every entry of the full listing is read back by the id it is listed with. Every fourth history has keys containing '+', a blank and '%20'. The marker pairs naming existing versions are also sent under five prefix / delimiter combinations (the marker's key inside, outside or grouped by the prefix). Every third suspension is sent as a versioning document that does not mention the status. Every fourth history has a key that begins with the delimiter (unpaginated grouped listings only).",
         "explanation": "Theorems over the version-listing model (exactness w.r.t. the stored versions, one IsLatest per key = the "
                        "current version, paging). Tie: every page from the Go handlers vs the extracted model, version ids through "
                        "the bijection, plus the walk oracle on the implementation's pages.",
@@ -212,7 +212,7 @@ PROPS = {
                 "same digest x length matrix, bad part numbers and failing readers for upload-part; after each request a snapshot "
                 "(GET+HEAD of the previous object incl. metadata, GET of the absent key, bucket listing, ListParts of the pending "
                 "upload) is compared with the model, whose state is unchanged by a rejected request. distinct_nontrivial = distinct "
-                "(backend, integrity, target, digest kind, length delta / failure point). Uploads the backend itself refuses (a path segment longer than a file name on real directories) are rejected uploads too: listings with and without delimiter and the other object are compared before and after, and the refused key must afterwards read as NoSuchKey and delete quietly. Key-limit cases in multi-byte characters: 512 / 513 two-byte, 342 three-byte, 257 four-byte characters (the limit counts bytes). An aws-chunked part with the Content-MD5 of its payload (accepted), of its framed bytes and of other bytes (refused, the held part unchanged). Multipart initiates with metadata totalling limit-1 / limit / limit+1 / limit+100. Bodies ending in LF / CRLF / CRLFCRLF with the declared length leaving exactly the line terminators out, with and without the digest of the bytes sent, plain and aws-chunked. Uploads to keys well inside the limit whose segments take 230 / 240 bytes in 115 / 80 multi-byte characters (accepted everywhere).",
+                "(backend, integrity, target, digest kind, length delta / failure point). Uploads the backend itself refuses (a path segment longer than a file name on real directories) are rejected uploads too: listings with and without delimiter and the other object are compared before and after, and the refused key must afterwards read as NoSuchKey and delete quietly. Key-limit cases in multi-byte characters: 512 / 513 two-byte, 342 three-byte, 257 four-byte characters (the limit counts bytes). An aws-chunked part with the Content-MD5 of its payload (accepted), of its framed bytes and of other bytes (refused, the held part unchanged). Multipart initiates with metadata totalling limit-1 / limit / limit+1 / limit+100. Bodies ending in LF / CRLF / CRLFCRLF with the declared length leaving exactly the line terminators out, with and without the digest of the bytes sent, plain and aws-chunked. Uploads to keys well inside the limit whose segments take 230 / 240 bytes in 115 / 80 multi-byte characters (accepted everywhere). Browser-form uploads with 400 / 900 / 1600 bytes of metadata against the configured limit of 300.",
         "explanation": "Theorems: the modelled upload path accepts iff the digest (when checked) matches the bytes received and the "
                        "declared length equals the body length; every rejection — for every reader failure point k — returns the state "
                        "unchanged. Tie: responses and before/after snapshots of the Go handlers on all six backends vs the extracted "
@@ -233,7 +233,7 @@ PROPS = {
                 "backends, every file on disk classified by bucket root) is compared with the snapshot before by the frame oracle: "
                 "only entries of the addressed (bucket, key) may change, a refused operation may change nothing, no file may appear "
                 "outside the addressed bucket's roots. Memory and bolt are additionally stepped against the model. "
-                "distinct_nontrivial = distinct (backend, bucket, key, status). Buckets bkc2 and bkc.x (names beginning with the name of bucket bkc) hold objects while the empty bucket bkc is created and deleted; the snapshot also records the common prefixes of a delimiter listing and, on real directories, the directories on disk; copies are also attempted from source buckets . .. buckets metadata _meta ./<bucket> spelling the path to a stored object (must be refused); every history ends with a force-delete (x-minio-force-delete) of a bucket that holds keys named like other buckets, under the frame oracle only. On memory and bolt the creation date is part of a bucket's list entry in the snapshot. The snapshot holds every pending multipart upload with its parts; uploads are started and their ids then used through another key of the bucket (refused, nothing changes). A third of the listings carry prefixes that spell paths to other buckets; everything listed must be a key written to the addressed bucket under that prefix. Listing completeness: for prefixes cut from stored keys, and at the end of every history for the beginning of every held key with and without delimiter, every key held under the prefix is shown or lies under a shown common prefix; the key-value backends hold /lead next to lead. c02Nesting at the end of every history: an upload above or below a stored key is refused or stored, never at the cost of the key that was there, and what is served is listed. Every history opens by storing n.tmp n~ n.part n.new .n.tmp n.bak .n.swp and then uploads n.",
+                "distinct_nontrivial = distinct (backend, bucket, key, status). Buckets bkc2 and bkc.x (names beginning with the name of bucket bkc) hold objects while the empty bucket bkc is created and deleted; the snapshot also records the common prefixes of a delimiter listing and, on real directories, the directories on disk; copies are also attempted from source buckets . .. buckets metadata _meta ./<bucket> spelling the path to a stored object (must be refused); every history ends with a force-delete (x-minio-force-delete) of a bucket that holds keys named like other buckets, under the frame oracle only. On memory and bolt the creation date is part of a bucket's list entry in the snapshot. The snapshot holds every pending multipart upload with its parts; uploads are started and their ids then used through another key of the bucket (refused, nothing changes). A third of the listings carry prefixes that spell paths to other buckets; everything listed must be a key written to the addressed bucket under that prefix. Listing completeness: for prefixes cut from stored keys, and at the end of every history for the beginning of every held key with and without delimiter, every key held under the prefix is shown or lies under a shown common prefix; the key-value backends hold /lead next to lead. c02Nesting at the end of every history: an upload above or below a stored key is refused or stored, never at the cost of the key that was there, and what is served is listed. Every history opens by storing n.tmp n~ n.part n.new .n.tmp n.bak .n.swp and then uploads n. A fifth of the uploads go through the browser form; every history opens with a form upload of /lead.",
         "explanation": "Theorems: frame laws of the model (an operation addressed to (bucket, key) changes no other (bucket, key); keys "
                        "that differ as byte strings are different objects; an unknown bucket name is never served). Tie: model "
                        "comparison on the opaque-key backends; the model-free frame oracle (extracted from Coq) on the observations "
@@ -279,7 +279,7 @@ PROPS = {
                 "metadata sets (none; Content-Type + x-amz-meta; Content-Type + Content-Encoding + Content-Disposition + a 900-byte "
                 "value), uploaded by PUT (with and without Content-MD5), browser-form POST, copy, and Backend.PutObject; each followed "
                 "by GET and HEAD over HTTP (and through the Backend API) and a listing of the key; later operations on other keys, "
-                "then the same reads again. distinct_nontrivial = distinct (backend, integrity, upload path, size, key). Copies are made inside the bucket and, every third one, from a second bucket that holds an object of the destination's name (which must stay what it is). On the key-value backends the twin-key groups include keys that differ by leading or doubled slashes (lead, /lead, //lead). Two keys carry white space at their ends (blank-padded; a tab and a trailing blank). heldRead: an object opened through Backend.GetObject is read after its key was overwritten; the bytes are those its size and hash describe. apiPutReusedBuffer: Go-API uploads from a buffer the caller refills afterwards. On every second store the twin-key groups are written and read virtual-host style (host-bucket / host-bucket-base server on the same backend). recycledBucketPut: an upload whose body is held back while its empty bucket is deleted and created again; if acknowledged it is readable. The same bytes uploaded again to a key under other metadata (PUT, form POST, aws-chunked, Go API, copy onto itself; also an empty body); keys whose segments take 230 and 240 bytes in 115 and 80 characters. apiPutReusedMap: one metadata map handed to Backend.PutObject for two uploads and changed afterwards; the stored objects keep what each call was given. heldRead makes the overwrite plus eight 40 KB uploads and their deletes while its read is open.",
+                "then the same reads again. distinct_nontrivial = distinct (backend, integrity, upload path, size, key). Copies are made inside the bucket and, every third one, from a second bucket that holds an object of the destination's name (which must stay what it is). On the key-value backends the twin-key groups include keys that differ by leading or doubled slashes (lead, /lead, //lead). Two keys carry white space at their ends (blank-padded; a tab and a trailing blank). heldRead: an object opened through Backend.GetObject is read after its key was overwritten; the bytes are those its size and hash describe. apiPutReusedBuffer: Go-API uploads from a buffer the caller refills afterwards. On every second store the twin-key groups are written and read virtual-host style (host-bucket / host-bucket-base server on the same backend). recycledBucketPut: an upload whose body is held back while its empty bucket is deleted and created again; if acknowledged it is readable. The same bytes uploaded again to a key under other metadata (PUT, form POST, aws-chunked, Go API, copy onto itself; also an empty body); keys whose segments take 230 and 240 bytes in 115 and 80 characters. apiPutReusedMap: one metadata map handed to Backend.PutObject for two uploads and changed afterwards; the stored objects keep what each call was given. heldRead makes the overwrite plus eight 40 KB uploads and their deletes while its read is open. Eleven Content-Type spellings that are valid but not canonical (and upper-case Content-Disposition / Content-Encoding values) uploaded by PUT, form POST and Go API.",
         "explanation": "Theorems: read-your-writes with the exact body and the metadata sent (C01_roundtrip), HEAD/GET agreement, "
                        "stability under operations on other keys (frame), listing entry = current version. Tie: the responses of the Go "
                        "handlers and of the Go Backend API vs the extracted model, with length and MD5 recomputed by the checker.",
@@ -300,7 +300,7 @@ PROPS = {
                 "missing or duplicate parts; aws-chunked incl. truncated with hostile decoded lengths) x hostile headers (Range, "
                 "Content-MD5, X-Amz-Copy-Source, Content-Length, conditionals, force-delete, oversized metadata). Every request runs "
                 "under recover() and a 5 s deadline; every 25 requests a canary sequence on a fresh bucket and on the fuzzed bucket is "
-                "compared with the model. distinct_nontrivial = distinct (backend, config, status, code, method, header count). The corpus and the fuzz pool hold keys of 200-210 bytes in 2-, 3- and 4-byte characters (written, read, listed, deleted). The versioned store holds delete markers between live keys of a group, last in a group and as a group of their own; the corpus pages object listings over them (max-keys 1..6 x 11 prefix / delimiter / marker combinations). Signed, huge, non-hexadecimal and empty aws-chunked chunk-size fields, as an object and as a part. Completes naming every part number 0..6, 10000, 10001, alone and after a valid first entry. A sixth configuration: a server with host-bucket bases addressed path-style; the canary on a fresh bucket carries a multipart upload from initiate to complete. On servers without a versioned backend the corpus sends versioning documents without a Status element. Every run ends with Minio's force-delete of buckets that hold objects followed by requests that must still be answered. Two more configurations: the request-time check switched on (default limit; undated requests are stamped with the server's own time, the grammar sends dates at, around and far beyond the limit, malformed ones too) on mem and bolt, and the CORS wrapper (WithInsecureCORS; every request names an Origin) on mem and the single-bucket fs backend.",
+                "compared with the model. distinct_nontrivial = distinct (backend, config, status, code, method, header count). The corpus and the fuzz pool hold keys of 200-210 bytes in 2-, 3- and 4-byte characters (written, read, listed, deleted). The versioned store holds delete markers between live keys of a group, last in a group and as a group of their own; the corpus pages object listings over them (max-keys 1..6 x 11 prefix / delimiter / marker combinations). Signed, huge, non-hexadecimal and empty aws-chunked chunk-size fields, as an object and as a part. Completes naming every part number 0..6, 10000, 10001, alone and after a valid first entry. A sixth configuration: a server with host-bucket bases addressed path-style; the canary on a fresh bucket carries a multipart upload from initiate to complete. On servers without a versioned backend the corpus sends versioning documents without a Status element. Every run ends with Minio's force-delete of buckets that hold objects followed by requests that must still be answered. Two more configurations: the request-time check switched on (default limit; undated requests are stamped with the server's own time, the grammar sends dates at, around and far beyond the limit, malformed ones too) on mem and bolt, and the CORS wrapper (WithInsecureCORS; every request names an Origin) on mem and the single-bucket fs backend. The corpus reads an existing object under 18 spellings of an entity tag in If-None-Match / If-Match and 9 spellings of a date in If-Modified-Since / If-Unmodified-Since.",
         "explanation": "Theorems: no reachable state makes a modelled handler panic (object API, range, uploader complete/list with any "
                        "part number or marker, version listing), an error leaves the state unchanged, and the status of an error equals "
                        "the table entry of its code. Tie: model-free response oracle (extracted from Coq) on every response of the Go "
